@@ -407,6 +407,7 @@ type shapedBlock struct {
 	Commitments *core.BlockCommitments
 	Safe        bool   // hashable: hash-relevant identity can be evaluated on it
 	Unequal     bool   // len(Txs) != len(Receipts) (accepted by the write accessor, never produced by Store)
+	Twin        bool   // fixed-size large blob (see twinBlock)
 	Desc        string // structural key
 }
 
@@ -478,6 +479,34 @@ func (s *shaper) block(number uint64) *shapedBlock {
 	}
 	b.Desc = fmt.Sprintf("n=%d txs=%d rcs=%d safe=%v huge=%v ver=%q [%s] ev=%d", number, len(b.Txs), len(b.Receipts), b.Safe, huge, ver, strings.Join(ks, ","), evs)
 	return b
+}
+
+// twinBlock: a block whose transaction blob has a fixed, large encoded size (every felt is a
+// random element: 37 bytes each). Several twins in one store make a buffer-recycling
+// backend hand the memory of one twin's value to the read of the next twin: a result
+// that still aliases the first read then shows the other twin's bytes.
+func (s *shaper) twinBlock(number uint64) *shapedBlock {
+	s.safe = false
+	rf := func(n int) []felt.Felt {
+		out := make([]felt.Felt, n)
+		for i := range out {
+			out[i] = s.randFelt()
+		}
+		return out
+	}
+	p := func() *felt.Felt { f := s.randFelt(); return &f }
+	tx := &core.InvokeTransaction{TransactionHash: s.uniq(), CallData: rf(20000), TransactionSignature: rf(2), MaxFee: p(),
+		Version: new(core.TransactionVersion).SetUint64(1), Nonce: p(), SenderAddress: p()}
+	rc := &core.TransactionReceipt{Fee: p(), TransactionHash: tx.TransactionHash, Events: []*core.Event{{From: p(), Keys: rf(2), Data: rf(3000)}},
+		L2ToL1Message: []*core.L2ToL1Message{}, ExecutionResources: &core.ExecutionResources{Steps: 1 << 40}}
+	return &shapedBlock{
+		Header: &core.Header{Hash: s.uniq(), ParentHash: p(), Number: number, GlobalStateRoot: p(), SequencerAddress: p(), TransactionCount: 1, EventCount: 1,
+			Timestamp: 1 << 40, ProtocolVersion: "0.13.4", EventsBloom: s.bloom(), L1GasPriceETH: p(), L1GasPriceSTRK: p()},
+		Txs: []core.Transaction{tx}, Receipts: []*core.TransactionReceipt{rc},
+		SU:          &core.StateUpdate{BlockHash: p(), NewRoot: p(), OldRoot: p(), StateDiff: &core.StateDiff{}},
+		Commitments: &core.BlockCommitments{TransactionCommitment: p()},
+		Twin:        true, Desc: fmt.Sprintf("n=%d twin (1 invoke v1, 20000 calldata felts, 1 event with 3000 data felts: fixed blob size)", number),
+	}
 }
 
 func (s *shaper) feltMap(field string) map[felt.Felt]*felt.Felt {
